@@ -185,7 +185,7 @@ func c13Body(c *mc.Ctx, media, scheme string, maxN int) {
 		c.Cover("value:" + values[(i*3+vrot)%len(values)].name)
 	}
 	spec := newEnvSpec(media, cont, "p256-e")
-	extra := c.Choose("crit-extra", 10)
+	extra := c.Choose("crit-extra", 16)
 	mustReject, recorded := false, false
 	switch extra {
 	case 4:
@@ -215,6 +215,26 @@ func c13Body(c *mc.Ctx, media, scheme string, maxN int) {
 			spec.crit = append(spec.crit, int64(3))
 		} else {
 			spec.crit = append(spec.crit, "cty")
+		}
+		recorded = true
+	case 10, 11, 12, 13, 14, 15:
+		// an optional specification header that is present with a value that says nothing (null; an empty text / CBOR undefined), named in
+		// crit or not. Whether such an envelope is accepted is not C13's subject; if it is, the header is still a specification header
+		// and never one of the extended attributes.
+		name := envenc.HdrExpiry
+		if extra == 12 || extra == 13 {
+			name = envenc.HdrSigningTime
+			if scheme == envenc.SchemeX509 {
+				name = envenc.HdrAuthTime
+			}
+		}
+		if extra >= 14 {
+			spec.hSet(name, `""`, envenc.CUndefined())
+		} else {
+			spec.hSet(name, "null", envenc.CNull())
+		}
+		if extra == 11 || extra == 13 || extra == 15 {
+			spec.crit = append(spec.crit, name)
 		}
 		recorded = true
 	case 6, 7, 8, 9:
